@@ -117,11 +117,13 @@ const (
 	FFmtMulti
 	FFmtHeredoc
 	FFmtOneLine
+	FHeredocInterp    // heredoc whose first character is written as an interpolation of a literal: ${"h"}...
+	FFmtHeredocInterp // ... and formatted
 	numFOpt
 )
 
 var foptNames = []string{"-", "comments", "whitespace", "crlf", "multiline", "heredoc", "oneline", "colon", "unicode",
-	"fmt", "fmt-whitespace", "fmt-comments", "fmt-multiline", "fmt-heredoc", "fmt-oneline"}
+	"fmt", "fmt-whitespace", "fmt-comments", "fmt-multiline", "fmt-heredoc", "fmt-oneline", "heredoc-interp", "fmt-heredoc-interp"}
 
 func (f FOpt) String() string { return foptNames[f] }
 
@@ -171,6 +173,13 @@ func (f FOpt) nativeStyle() (NStyle, bool) {
 		st.OneLine = true
 		st.Eq = "   =  "
 		format = true
+	case FHeredocInterp:
+		st.Heredoc = true
+		st.HeredocInterp = true
+	case FFmtHeredocInterp:
+		st.Heredoc = true
+		st.HeredocInterp = true
+		format = true
 	}
 	return st, format
 }
@@ -217,6 +226,8 @@ type Rendered struct {
 	// SkipGohclValue: blocks of an order-free type (set/map/object) were reordered;
 	// gohcl decodes every repeated type into a slice, so only has-error is compared.
 	SkipGohclValue bool
+	// BothNestings: compare the step-by-step merge in both nesting directions (thorough)
+	BothNestings bool
 }
 
 func (r *Rendered) key() string {
@@ -739,6 +750,8 @@ type Limits struct {
 	// ExpandOnlyPairs: pair "Expand over a body without dynamic blocks" with P and F as
 	// well (with S and Y it always is: those change the body implementation under it)
 	ExpandOnlyPairs bool
+	// BothNestings: step-by-step merges compared in both nesting directions
+	BothNestings bool
 }
 
 func groupCount(body []*Node) int {
